@@ -3,7 +3,7 @@
    followed by Print Assumptions.  The model [merge] (M_Merge) is tied to profile.Merge of /repo's
    current tree by the correspondence check on full result dumps (R_C03). *)
 From Coq Require Import List ZArith String Bool Permutation.
-From PV Require Import M_Merge S_Merge L_Assoc L_Merge L_SampleKey L_LocKey L_Compact M_MergeMemo L_MergeMemo.
+From PV Require Import M_Merge S_Merge L_Assoc L_Merge L_SampleKey L_LocKey L_Compact M_MergeMemo L_MergeMemo M_MergeGlue L_MergeGlue.
 Import ListNotations.
 Open Scope Z_scope.
 
@@ -147,6 +147,41 @@ Theorem merge_after_edit : forall (edit : profile -> profile) ps q rest q2,
   NoDup (map (sample_ident_of q2) (p_sample q2)).
 Proof. exact merge_after_edit_lemma. Qed.
 Print Assumptions merge_after_edit.
+
+(* -- END TO END.  M_MergeGlue models the driver code between profile.Merge and what `pprof ... -proto`,
+   `-raw`, the interactive `proto` / `raw` commands and /download write: sources that cannot be fetched
+   are left out, a profile without mappings gets a fake one, the fetched sources are combined in chunks
+   of 128, one profile is handed on unmerged, bases are negated (and marked for -diff_base) and merged
+   in, -add_comment is appended; proto / raw run at address granularity where only noinlines
+   (+showcolumns) and divide_by change what is written; every command of a session and every web
+   request starts from the fetched profile.  The e2e-* streams drive driver.PProf with real command
+   lines, sessions and web requests, parse the outputs back and compare them with this model.  What the
+   pipeline hands on conserves every stack's weight: -- *)
+Theorem chunked_grab_conserves : forall l q,
+  chunked_grab l = GOk q -> forall k j, eq64 (wt q k j) (wsum (successes l) k j).
+Proof. exact chunked_grab_conserves_lemma. Qed.
+Print Assumptions chunked_grab_conserves.
+
+Theorem fetch_conserves : forall srcs comment q,
+  fetch_profiles srcs [] false comment = MOk q ->
+  forall k j, eq64 (wt q k j) (wsum (successes srcs) k j).
+Proof. exact fetch_conserves_lemma. Qed.
+Print Assumptions fetch_conserves.
+
+Theorem fetch_base_subtracts : forall srcs bases q,
+  bases <> [] -> fetch_profiles srcs bases false "" = MOk q ->
+  forall k j, eq64 (wt q k j) (wsum (successes srcs) k j - wsum (successes bases) k j).
+Proof. exact fetch_base_subtracts_lemma. Qed.
+Print Assumptions fetch_base_subtracts.
+
+(* the display options do not reach what proto / raw / download write; a later command does not see
+   what an earlier one did *)
+Theorem written_ignores_display_options : forall c name value f,
+  name <> "noinlines"%string -> name <> "showcolumns"%string -> name <> "divide_by"%string ->
+  written_proto (gcfg_set c name value) f = written_proto c f /\
+  written_raw (gcfg_set c name value) f = written_raw c f.
+Proof. exact written_ignores_lemma. Qed.
+Print Assumptions written_ignores_display_options.
 
 (* -- the model compares sample keys as tuples, the Go code as varint byte strings: the byte
    encoding (compared with the real sampleKey byte for byte on every run) is injective on keys whose
